@@ -149,6 +149,22 @@ fn main() {
                 }
                 cases.extend(m);
             }
+            if prop == "C08" {
+                // "event index ... used only if the corresponding feature was negotiated", per queue of every
+                // driver: on the rows of the notification matrix where EVENT_IDX was not negotiated the
+                // decision to notify must follow used.flags — a queue that consults avail_event there
+                // (created with the wrong flag) shows as a decision against the flags
+                let mut m = c05_drivers::run_cases(&ctx);
+                for c in m.iter_mut() {
+                    c.oracle_failures.retain(|f| f.starts_with("[C05] ") && (f.contains("whose used.flags was 0 and did not notify") || f.contains("although the device had set VIRTQ_USED_F_NO_NOTIFY")));
+                    for f in c.oracle_failures.iter_mut() {
+                        *f = format!("EVENT_IDX was not negotiated, yet the queue's notification decision does not follow used.flags: {}", &f[6..]);
+                    }
+                    c.id = format!("C08-via-{}", c.id);
+                    c.tag("notification-matrix");
+                }
+                cases.extend(m);
+            }
             // …and its driver's rows of the construction stream over the real MMIO transport (legacy and
             // modern) against the register-level device: the queue areas the device latched are the ones the
             // driver allocated (a driver whose used ring the device looks for elsewhere never sees a completion)
